@@ -6,6 +6,7 @@ KIND_NAMES = {
     102: 'C01/piecedl: piecedownloader vs PieceDl.v',
     1301: 'C13/infodl: infodownloader vs InfoDl.v',
     1302: 'C13/magnet: magnet.New(String()) vs Magnet.v (render then parse)',
+    1303: 'session/metadata: metadata phase of a magnet torrent in the stepped event loop (extension handshakes, ut_metadata exchange, snub/disconnect, messages before the metadata is known, replay of queued messages) vs MetaSess.v',
     1701: 'C17/ram: resourcemanager vs Ram.v (outcomes and notifications validated; allocation compared exactly)',
     901: 'C09/picker: piecepicker (peer half) under the torrent glue vs Picker.v (picks validated against the legal set)',
     1501: 'C15/udp_packet: UDP announce datagram vs Tracker.udp_announce',
@@ -51,13 +52,18 @@ PROPS = {
         'trusted': ['SHA-1: a buffer whose digest equals the recorded hash is the recorded content (collision resistance)'],
         'assumptions': [],
     },
+    'C08': {
+        'kinds': {1102: {'quick': 2500, 'thorough': 60000}, 1103: {'quick': 48, 'thorough': 600}, 101: {'quick': 1500, 'thorough': 40000}, 1303: {'quick': 1500, 'thorough': 40000}, 303: {'quick': 160, 'thorough': 2400}},
+        'trusted': ['the dispatch of torrent.run() is mirrored by hand in VLoop.PumpEx', 'Go runtime: a panic in a handler is caught by the harness and reported as a crash; a handler that does not return within the per-case limit is reported as a hang'],
+        'assumptions': [],
+    },
     'C10': {
         'kinds': {101: {'quick': 2500, 'thorough': 60000}, 102: {'quick': 800, 'thorough': 20000}},
         'trusted': ['the dispatch of torrent.run() is mirrored by hand in VLoop.PumpEx', 'WriteCacheSize is large enough that the write-cache manager never defers a piece download in the generated scenarios'],
         'assumptions': ['the history was accepted by the model (s_bad = 0), which the correspondence establishes per generated history'],
     },
     'C13': {
-        'kinds': {1301: {'quick': 2500, 'thorough': 50000}, 1302: {'quick': 3000, 'thorough': 60000}, 303: {'quick': 160, 'thorough': 2400}},
+        'kinds': {1301: {'quick': 2500, 'thorough': 50000}, 1302: {'quick': 3000, 'thorough': 60000}, 1303: {'quick': 1500, 'thorough': 40000}},
         'trusted': ['net/url (Parse, ParseQuery, QueryEscape) beyond sampled agreement with the byte-level model', 'SHA-1 (adoption compares the digest of the assembled bytes with the info-hash)'],
         'assumptions': [],
     },
@@ -67,7 +73,7 @@ PROPS = {
         'assumptions': ['callers release only reservations they were granted (caller protocol)'],
     },
     'C09': {
-        'kinds': {901: {'quick': 1500, 'thorough': 40000}, 101: {'quick': 1500, 'thorough': 40000}},
+        'kinds': {901: {'quick': 1500, 'thorough': 40000}, 101: {'quick': 1500, 'thorough': 40000}, 1303: {'quick': 1500, 'thorough': 40000}},
         'trusted': ['slices.SortFunc returns a permutation sorted by the key (ties in any order)', 'markFileEdges (file head/tail flags are taken from the real picker)'],
         'assumptions': ['the torrent loop calls the picker under the glue discipline modelled by Picker.pstep'],
     },
